@@ -90,7 +90,7 @@ def run(ctx):
         data = dict(data, X=data['X'] * 2.0 ** 15)
         ctx.hist('units', '2^15 (array prior of the order 2^-30)')
       kw = fits.base_kwargs(name, data)
-      kw.update(prior=prior if prior != 'array' else (fits.spd_array(rng, d) * (2.0 ** -30 if big else 1.0)), sparsity_param=float(rng.choice([0.01, 0.1, 0.5])),
+      kw.update(prior=prior if prior != 'array' else (fits.spd_array(rng, d) * (2.0 ** -30 if big else 1.0)), sparsity_param=float(rng.choice([0.01, 0.1, 0.5, 3.0, 20.0])),
                 random_state=int(rng.integers(0, 100)))
       kw = fits.sdml_fix_balance(name, kw, data)
     opt = {k: (v if not isinstance(v, np.ndarray) else 'ndarray') for k, v in kw.items()}
@@ -104,6 +104,27 @@ def run(ctx):
       ctx.fail_input('fit_runs', '%s raises %s although the solver input is positive definite' % (name, type(ex).__name__), inp,
                      observed=str(ex)[:200])
       continue
+    if 'S' not in cap and 'prior_inv' in cap and 'pairs' in cap:
+      # fit returned without calling the solver: the matrix it returns must still minimise the documented objective.  S is
+      # rebuilt from the documented formula; optimality by the sub-gradient conditions (S - M^-1 = 0 on the diagonal - the
+      # penalty leaves it alone -, |S - M^-1| <= alpha where M is zero, = -alpha sign(M) elsewhere)
+      Pq = cap['pairs']
+      ypq = data['ypairs'] if name == 'SDML' else None
+      Mq = est.get_mahalanobis_matrix()
+      if ypq is not None and len(ypq) == len(Pq):
+        vq = Pq[:, 0] - Pq[:, 1]
+        Sq = cap['prior_inv'] + float(kw['balance_param']) * (vq.T * ypq).dot(vq)
+        Gq = Sq - np.linalg.inv(Mq)
+        aq = float(kw['sparsity_param'])
+        off = ~np.eye(len(Mq), dtype=bool)
+        viol = max(np.abs(np.diag(Gq)).max(),
+                   np.max(np.where(off & (Mq == 0), np.maximum(np.abs(Gq) - aq, 0), 0)),
+                   np.max(np.where(off & (Mq != 0), np.abs(Gq + aq * np.sign(Mq)), 0)))
+        ctx.count('kkt', 1)
+        if viol > 5e-3 * np.abs(Sq).max():
+          ctx.fail_input('kkt', 'fit returned without calling the solver and the matrix it returns is not a minimiser of the documented objective', inp,
+                         observed=dict(M=Mq.tolist(), S=Sq.tolist(), largest_violation_of_the_optimality_conditions=float(viol)))
+          continue
     if 'S' not in cap or 'prior_inv' not in cap:
       ctx.break_tie('correspondence', 'c13_observe', 'solver call not observed')
       continue
